@@ -228,7 +228,8 @@ func newFinishedHash(version uint16, cipherSuite *cipherSuite) finishedHash {
 
 	if version == VersionGMSSL {
 		prf = prfAndHashForGM()
-		return finishedHash{sm3.New(), sm3.New(), nil, nil, buffer, version, prf}
+		// the MD5 slots are written for every version below TLS 1.2 (GMSSL is 0x0101): they must not be nil
+		return finishedHash{sm3.New(), sm3.New(), new(nilMD5Hash), new(nilMD5Hash), buffer, version, prf}
 	} else {
 		prf, hash := prfAndHashForVersion(version, cipherSuite)
 		if hash != 0 {
